@@ -13,12 +13,13 @@ INF = 2000000000
 BASES = {1: [100, -200, 100, -250, 200, 0, 200, -200],
          2: [200, 600, 1000, 200, 60, 500, 1500, 700, 1200, -20],
          3: [120, -120, 200, -200, 240, -240, 120, -120, 280, -280, 80, -80, 240, -240, 320, -320, 320, -320],
-         4: [600 if i % 2 == 0 else -600 for i in range(80)]}
+         4: [600 if i % 2 == 0 else -600 for i in range(80)],
+         5: [346, -122, 194, -246, 170, 80, 128, 46]}      # base 5: trailing repeated value / a last reversal that is carried over into the second HCM pass and closes a hysteresis there
 RATIO = {1: 0.2, 2: 0.5, 3: 1.0, 4: 1.2, 5: 3.0}
 SCALE = [1.0, 1.25, 1.6]
 ROUGH = [12.5, 50.0, 200.0]
 PA = [2.3e-1, 1e-3, 1e-5]
-BASE_SCALE = {1: 1.0, 2: 0.35, 3: 1.0, 4: 0.9}     # base 4 at 0.9: P_RAM damage 1 is reached late in the second HCM pass
+BASE_SCALE = {1: 1.0, 2: 0.35, 3: 1.0, 4: 0.9, 5: 1.0}     # base 4 at 0.9: P_RAM damage 1 is reached late in the second HCM pass
 
 
 def refine(seq, k):
@@ -339,7 +340,7 @@ def run(chk):
         i += 1
     # core walks (prefixes of model walks, always executed): every refinement kind, the monotone actions twice, a batch round trip, per base
     core = []
-    for b in (1, 2, 3, 4):
+    for b in (1, 2, 3, 4, 5):
         for k in (1, 2, 3, 4, 5, 6):
             if b != 4 or k in (3, 5):
                 core.append((b, (('Refine', k, 'same'),)))
